@@ -7,7 +7,7 @@ import os
 import re
 from collections import Counter, defaultdict, deque
 
-from .guards import prov, op_prov, bool_condition, bool_edge_value, switch_edges, succ_for_value
+from .guards import prov, op_prov, bool_condition, bool_edge_value, switch_edges, succ_for_value, natural_loops
 from .lib import (fn_key, CallGraph, op_local, op_const, op_place, place_local, place_fields, rvalue_operands,
                   last_seg, strip_generics, promoted_consts, AnchorError)
 from . import c14
@@ -415,6 +415,96 @@ def run(ctx):
     _controls(ctx, F, names, summaries, pfns)
 
 
+class PostState:
+    """What is known where the next terminal is arbitrary again - right after a call that may consume: the kinds the callee
+    can leave as next terminal (it returned without consuming from a point of its own where the kind was k), and the
+    abstract values it can return (every path of the callee, next terminal unknown, calls that receive the parser opaque)."""
+
+    def __init__(self, A, ai, ai_top, pf, LK, may_consume):
+        self.A, self.ai, self.ai_top, self.pf, self.LK, self.may_consume = A, ai, ai_top, pf, LK, may_consume
+        self._pk = {}
+        self._rv = {}
+
+    def callee_ctx(self, f, cx, c):
+        A = self.A
+        h = self.pf[c.path]
+        gen = h.d.get("generics") or []
+        gargs = [A.subst_apply(cx[0], x) for x in c.gargs]
+        sub = tuple(sorted(zip(gen, gargs))) if gen and len(gen) == len(gargs) else ()
+        args = []
+        for a in c.args[:h.argc]:
+            av = A.static_av(f, a, cx, consts=True)
+            args.append(av if A._ctx_relevant(av) else None)
+        return (sub, tuple(args))
+
+    def points(self, f):
+        pts = {}
+        for c in f.calls():
+            if c.target is not None and self.may_consume(f, c):
+                pts[c.target] = c
+        loops = natural_loops(f)
+        for h in (loops.keys() if isinstance(loops, dict) else [h for h, _ in loops]):
+            pts.setdefault(h, None)
+        return pts
+
+    def post_kinds(self, g, cx):
+        key = (g, cx)
+        if key in self._pk:
+            return self._pk[key] if self._pk[key] is not None else set(self.LK)
+        self._pk[key] = None          # in progress: a recursive question gets "any kind"
+        f = self.pf[g]
+        res = set()
+        for k in self.LK:
+            if any(rav != "!" and not cons for rav, cons in self.ai.outcomes(g, k, cx[0], cx[1])):
+                res.add(k)
+        for bb, c in self.points(f).items():
+            ks = self.kinds_after(f, cx, c)
+            for k in ks:
+                if k in res:
+                    continue
+                for env in self.envs_after(f, cx, c):
+                    if any(rav != "!" and not cons for rav, cons in self.ai.from_block(f, bb, k, cx[0], cx[1], extra_env=env)):
+                        res.add(k)
+                        break
+        self._pk[key] = res
+        return res
+
+    def kinds_after(self, f, cx, c):
+        if c is None or c.path not in self.pf or c.callee.get("r") == "ptr":
+            return list(self.LK)
+        return sorted(self.post_kinds(c.path, self.callee_ctx(f, cx, c)))
+
+    def ret_variants(self, g, cx):
+        key = (g, cx)
+        if key not in self._rv:
+            before = len(self.ai_top.limits)
+            outs = self.ai_top.outcomes(g, self.A.TOPK, cx[0], cx[1])
+            ravs = {rav for rav, _ in outs if rav != "!"}
+            if len(self.ai_top.limits) > before or None in ravs or len(ravs) > 8 or not ravs:
+                self._rv[key] = None
+            else:
+                self._rv[key] = sorted(ravs, key=str)
+        return self._rv[key]
+
+    def envs_after(self, f, cx, c):
+        if c is None or c.path not in self.pf or c.callee.get("r") == "ptr" or place_fields(c.dest) or not isinstance(c.dest, int) and c.dest[1]:
+            return [{}]
+        rv = self.ret_variants(c.path, self.callee_ctx(f, cx, c))
+        if rv is None:
+            return [{}]
+        return [{place_local(c.dest): av} for av in rv]
+
+    def panics_from(self, f, cx, bb, c, k):
+        """Can a panic be reached from restart point bb of f (after call c, or a loop head) when the next terminal is k?"""
+        if ("!", False) not in self.ai.from_block(f, bb, k, cx[0], cx[1]):
+            return False
+        if c is None or c.path not in self.pf or c.callee.get("r") == "ptr":
+            return True
+        if k not in self.post_kinds(c.path, self.callee_ctx(f, cx, c)):
+            return False
+        return any(("!", False) in self.ai.from_block(f, bb, k, cx[0], cx[1], extra_env=env) for env in self.envs_after(f, cx, c))
+
+
 def _progress(ctx, names):
     """R9.4-R9.6: the recovery loops of the parser make progress (abstract interpretation of the prefix of every
     routine that runs on an unchanged look-ahead, for every terminal kind and calling context)."""
@@ -504,7 +594,7 @@ def _progress(ctx, names):
     LK = sorted({st[2][4] for _, _, st in tkf.stmts() if st[0] == "a" and st[2][0] == "agg" and st[2][1] == "adt"
                  and st[2][2].endswith("kind::SyntaxKind")})
     ctx.floor("terminal kinds the lexer can produce", len(LK), 60)
-    def guarded_panics(ai, rule, kinds, cand_extra, what):
+    def guarded_panics(ai, ai_top, rule, kinds, cand_extra, what):
         """Routines that panic for some next-terminal kinds are reached only with the other kinds."""
         LK = kinds
         ppf = {p: f for p, f in pf.items() if p.startswith(PARSER)}
@@ -537,16 +627,17 @@ def _progress(ctx, names):
         def may_consume(f, c):
             """Can the call move the token window?  (`&mut Parser` receiver and, for routines of the parser, a summary
             that consumes for some kind and context)"""
+            if not any(op_local(a) is not None and (f.local_ty(op_local(a)) or "").startswith("&mut " + PARSER) for a in c.args):
+                return False          # cannot move the window without the parser (a `should_stop(kind)` pointer, a pure helper)
             if c.callee.get("r") == "ptr":
                 return True
-            if not any(op_local(a) is not None and (f.local_ty(op_local(a)) or "").startswith("&mut " + PARSER) for a in c.args):
-                return False
             g = c.path
             if g not in pf:
                 return True
             if g not in consumes:
                 consumes[g] = any(cons for cx in contexts[g] for k in LK for _, cons in ai.outcomes(g, k, cx[0], cx[1]))
             return consumes[g]
+        post = PostState(A, ai, ai_top, pf, LK, may_consume)
         roots = [q for q in ppf if last_seg(q) in ("parse_syntax_file", "parse_file_expr", "parse_token_stream", "parse_token_stream_expr", "parse_file_statement_list",
                                                     "parse_file")]
         for q in sorted(roots):
@@ -563,30 +654,47 @@ def _progress(ctx, names):
                 f = ppf[q]
                 # the call sites in q are safe if q entered with any kind never reaches the panic on its unchanged prefix
                 # (then P[q] is empty) and if no point after a consumption, and no loop head, reaches it either
-                starts = set()
-                for c in f.calls():
-                    if c.target is not None and may_consume(f, c):
-                        starts.add(c.target)
-                loops = natural_loops(f)
-                starts |= set(loops.keys() if isinstance(loops, dict) else [h for h, _ in loops])
+                starts = post.points(f)
                 bad = {}
                 for cx in contexts[q]:
                     for k in LK:
                         if ("!", False) in ai.outcomes(q, k, cx[0], cx[1]):
                             continue          # q itself panics on k from its entry: its own callers are checked in turn
                         for bb in sorted(starts):
-                            if ("!", False) in ai.from_block(f, bb, k, cx[0], cx[1]):
+                            if post.panics_from(f, cx, bb, starts[bb], k):
                                 bad.setdefault(k, A._line(f, bb))
                 n_sites += 1
                 ctx.ob(rule, "guarded:%s<-%s" % (fn_key(g).split("::")[-1], fn_key(q)), not bad,
                        "%s %s when entered with %d of the %d kinds (e.g. %s); in %s it is reached only with the other kinds, from the entry, after every consuming call and from every loop head" % (
                            last_seg(g), what or "panics", len(ks), len(LK), sorted(ks)[:2], last_seg(q)) if not bad else
                        "%s %s on %s and is reached with that kind in %s (from line %s)" % (last_seg(g), what or "panics", sorted(bad)[:4], last_seg(q), sorted(bad.values())[0]), f.where())
+        # ... and a routine with a panicking construct of its own does not reach it from a point where the next terminal is
+        # arbitrary again (after a call that may consume, at a loop head)
+        n_int = 0
+        for g in sorted(set(cand)):
+            if last_seg(g) in A.BASE_CONSUMERS or last_seg(g) == "take" or g not in ppf:
+                continue
+            f = ppf[g]
+            starts = post.points(f)
+            if not starts:
+                continue
+            bad = {}
+            for cx in contexts[g]:
+                for k in LK:
+                    for bb in sorted(starts):
+                        if post.panics_from(f, cx, bb, starts[bb], k):
+                            bad.setdefault(k, A._line(f, bb))
+            n_int += 1
+            ctx.ob(rule, "after-consumption:%s" % fn_key(g), not bad,
+                   "no point of %s where the next terminal is arbitrary again (after a consuming call, at a loop head) reaches a panic%s, for any of the %d kinds" % (
+                       last_seg(g), what and " or a window pop", len(LK)) if not bad else
+                   "%s %s on %s from line %s, where the next terminal is arbitrary" % (last_seg(g), what or "panics", sorted(bad)[:4], sorted(bad.values())[0]), f.where())
         ctx.floor("%s: call relations into routines that panic for some kinds" % rule, n_sites, 2)
         ctx.notes.append("%s: routines that panic%s for some kinds on an unchanged look-ahead: %s" % (rule, what and " / pop the window", {last_seg(g): len(ks) for g, ks in panicking.items()}))
         return panicking
 
-    guarded_panics(ai, "R9.9", LK, lambda ppf: [], "")
+    ai_top = A.ParserAI(F, names, topk=True)
+    guarded_panics(ai, ai_top, "R9.9", LK, lambda ppf: [], "")
 
     # R9.10 the token window is never popped at end of file.  `advance` pops the front of `current_terminals`; the end-of-
     # file terminal is the last one the lexer produces, so popping it would leave the window empty and the next `peek()`
@@ -598,7 +706,7 @@ def _progress(ctx, names):
     ppf_all = {p: f for p, f in pf.items() if p.startswith(PARSER)}
     pop_routines = poppers(ppf_all)
     ctx.floor("routines that pop the token window (call take, take_raw or advance)", len(pop_routines), 60)
-    at_eof = guarded_panics(ai_eof, "R9.10", [A.EOF_KIND], poppers, "pops the token window at end of file (or panics)")
+    at_eof = guarded_panics(ai_eof, ai_top, "R9.10", [A.EOF_KIND], poppers, "pops the token window at end of file (or panics)")
     ctx.ob("R9.10", "interpreter:clean", not (ai_eof.limits or ai_eof.unknown_calls),
            "no state limit or uninterpretable call in the end-of-file exploration (%d summaries)" % len(ai_eof.memo) if not (ai_eof.limits or ai_eof.unknown_calls)
            else "limits %s, unknown calls %s" % (sorted(last_seg(k[0]) for k in ai_eof.limits)[:4], sorted(last_seg(k[0]) for k in ai_eof.unknown_calls)[:4]), "")
